@@ -349,3 +349,13 @@ def run(ctx: Ctx):
             continue
         ctx.probe_case(name, c, r["ok"], fields=r["fields"], observed=r["observed"], expected=r["expected"], predicate=r["predicate"],
                        stratum=str(c.get("method", "")) + "/" + str(c.get("converger", [""])[0]))
+    # batch rows of surface-hopping dynamics: the hop step (velocity adjustment, acceptance) of a trajectory uses its OWN row of every batch tensor, also when
+    # only some rows hop, so that the position among the hoppers differs from the batch index (the real orchestration routine; probe shared with C17)
+    from . import c17 as _c17
+    hcases = [{"seed": int(ctx.rng.integers(0, 10**6)), "nmol": int(ctx.rng.integers(2, 6)), "nstates": int(ctx.rng.integers(2, 5)), "natom": int(ctx.rng.integers(2, 5)), "trials": 20 if ctx.thorough else 10,
+               "decoherence": bool(i % 2)} for i in range(4 if ctx.thorough else 2)]
+    for c, r in zip(hcases, mdh.pmap(_c17.probe_hop_batch, hcases)):
+        if isinstance(r, Exception) or r is None:
+            ctx.obligation("probe sh_hop_rows evaluated", False, repr(r)[-1500:], kind="harness")
+            continue
+        ctx.probe_case("sh_hop_rows", c, r["ok"], fields=dict(r["fields"], probe_origin="c17.hop_batch"), observed=r["observed"], expected=r["expected"], predicate=r["predicate"], stratum="sh")
